@@ -30,4 +30,4 @@ DELIVERABLES: {wt}-out/A/ and {wt}-out/B/, each containing
   patch.diff  (output of `git diff` in the worktree with only that change applied; must apply with `git apply` to a clean checkout)
   demo.py
   meta.json   {{"property": "{pid}", "summary": "<what was changed>", "breaks": "<which part of the statement fails and how>", "needs": "<what it needs in order to manifest>", "files": ["src/twisted/..."], "tests": ["src/twisted/.../test_x.py", ...], "ran": ["<commands you ran and their outcome>"]}}
-When finished leave the worktree clean (`git checkout -- .`, remove stray files). Final answer: for A and B, two or three sentences each on what the change is and why tests miss it, plus the test results you observed.""")
+Do NOT use `git stash` (the stash is shared between worktrees; use `git diff > file; git checkout -- .; git apply file` instead). When finished leave the worktree clean (`git checkout -- .`, remove stray files). Final answer: for A and B, two or three sentences each on what the change is and why tests miss it, plus the test results you observed.""")
